@@ -19,7 +19,7 @@ func init() {
 		Explanation: "Check-then-act atomicity for every closable channel that is a struct field (discovered: every field that is an operand of close() anywhere in the three packages). " +
 			"A send on a closed channel is impossible for every schedule iff the close and every send are serialised by one lock and each sender re-checks the closed flag inside its critical section. " +
 			"Decided with a whole-program lockset analysis (entry locks of closures/helpers inferred from all their call sites) plus dominance of the not-closed edge of a flag test that itself executes under the lock. " +
-			"Not decided: deadlock freedom, goroutines left parked after a close, double close.",
+			"Not decided: deadlock freedom beyond R5 (a caller blocked in a receive is released by the close), goroutines left parked after a close, double close.",
 		Trusted: commonTrusted,
 		Run:     runC15,
 	})
@@ -155,7 +155,7 @@ func runC15(c *core.Ctx) {
 		for _, s := range ch.senders {
 			c.Analysed(core.FuncName(s.Fn))
 			key := fmt.Sprintf("%s/send@%s", ch.field, core.FuncName(s.Fn))
-			if s.Via != "" {
+			if s.Via != "" && !c15privateHelper(p, s) {
 				key += "/" + strings.TrimPrefix(s.Via, "fpgo.")
 			}
 			if ch.lockSuf == "" && ch.flag != "" {
@@ -173,6 +173,26 @@ func runC15(c *core.Ctx) {
 						tested = true
 					}
 				}
+				if !tested && c15privateHelper(p, s) {
+					// the send sits in an unexported helper that is handed the flag's value and the channel
+					// (`sendUnlessClosed(x.isClosed, x.ch, item)`) and tests that parameter itself
+					call := s.Instr.(ssa.CallInstruction).Common()
+					g := core.Callee(call)
+					core.Instrs(g, func(ins ssa.Instruction) {
+						snd, isS := ins.(*ssa.Send)
+						if !isS {
+							return
+						}
+						for _, cond := range core.EdgeFacts(snd.Block()) {
+							n := core.Normalize(cond)
+							for k, prm := range g.Params {
+								if core.Resolve(n.V) == ssa.Value(prm) && k < len(call.Args) && !n.True && flagRead(p, call.Args[k], s.Base, ch.flag, 0) {
+									tested = true
+								}
+							}
+						}
+					})
+				}
 				c.Check(tested, "R2", key+"/flag-test", p.InstrPos(s.Instr), "send preceded by a test of "+s.Base+"."+ch.flag+" on the not-closed edge", "send on "+ch.field+" is not even preceded by a test of the closed flag: every operation after Close sends on the closed channel and panics")
 			}
 			if ch.lockSuf == "" || ch.flag == "" {
@@ -187,6 +207,79 @@ func runC15(c *core.Ctx) {
 		}
 	}
 	c15R3(c, li)
+	c15R5(c, ops, chans)
+}
+
+// c15R5: a caller that blocks in a receive on a field channel of a closable object must be released by the close.
+// Closable object = a struct type at least one field channel of which is closed somewhere. Instances: blocking receives
+// (bare `<-ch`, `range ch`, a select with neither default nor any other case, or the same through a
+// ChannelQueue helper) on a field channel of such a type, in a function that is not exclusively the body of a
+// goroutine the package starts itself (a parked housekeeping goroutine is a leak, not a blocked user - not claimed).
+func c15R5(c *core.Ctx, ops []core.ChanOp, chans map[string]*c15chan) {
+	p := c.P
+	c.Rule("R5", "every field channel of a closable object on which a caller's goroutine blocks in a receive with no alternative (Take, YieldRef, YieldFrom's wait for the answer) is closed by the object's closer: otherwise a caller already waiting when Close / the coroutine's completion happens is never released (deadlock)", 3)
+	closable := map[string]bool{}
+	for f := range chans {
+		if t, _, ok := strings.Cut(f, "."); ok {
+			closable[t] = true
+		}
+	}
+	seen := map[string]bool{}
+	for _, o := range ops {
+		if o.Kind != "recv" || !o.Blocking || o.Field == "" {
+			continue
+		}
+		t, _, _ := strings.Cut(o.Field, ".")
+		if !closable[t] {
+			continue
+		}
+		if o.Alt {
+			continue
+		}
+		if _, isGo := o.Instr.(*ssa.Go); isGo || c15goroutineOnly(p, o.Fn, 0) {
+			continue // the receive happens in a goroutine the package starts itself (directly, or in the helper started here)
+		}
+		key := fmt.Sprintf("%s/released@%s", o.Field, core.FuncName(o.Fn))
+		if seen[key] {
+			continue
+		}
+		seen[key] = true
+		c.Analysed(core.FuncName(o.Fn))
+		ch := chans[o.Field]
+		c.Check(ch != nil && len(ch.closers) > 0, "R5", key, p.InstrPos(o.Instr), "the channel is closed by the closer", "blocking receive on "+o.Field+", which no function closes although "+t+" is closable: a caller waiting here when the object is closed is never released")
+	}
+}
+
+// c15goroutineOnly: fn runs only as (part of) a goroutine started by the package itself: every call site is a go
+// statement, or lies in such a function.
+func c15goroutineOnly(p *core.Prog, fn *ssa.Function, depth int) bool {
+	if depth > 3 {
+		return false
+	}
+	sites, complete := core.CallSites(p, fn)
+	if !complete || len(sites) == 0 {
+		return false
+	}
+	for _, s := range sites {
+		if _, isGo := s.Instr.(*ssa.Go); isGo {
+			continue
+		}
+		if s.Caller == nil || s.Caller == fn || !c15goroutineOnly(p, s.Caller, depth+1) {
+			return false
+		}
+	}
+	return true
+}
+
+// c15privateHelper: the operation happens inside an unexported helper function of the repository that the listed
+// instruction calls with the channel as an argument (not one of the ChannelQueue methods).
+func c15privateHelper(p *core.Prog, o core.ChanOp) bool {
+	ci, ok := o.Instr.(ssa.CallInstruction)
+	if !ok || o.Via == "" {
+		return false
+	}
+	g := core.Callee(ci.Common())
+	return g != nil && p.InRepo(g) && g.Object() != nil && !g.Object().Exported() && len(g.Blocks) > 0
 }
 
 func keysOf(m map[string]*c15chan) []string {
@@ -464,6 +557,20 @@ func c15R3(c *core.Ctx, li *core.LockInfo) {
 // prologue helper of the same receiver whose error result f returns unchanged when it is non-nil.
 func c15closedResult(p *core.Prog, f *ssa.Function, flag, sentinel string, depth int) (bool, string) {
 	base := f.Params[0].Name()
+	up := func(v ssa.Value) ssa.Value { return v }
+	if tgt, tc := core.ThinTarget(p, f); tgt != nil && tgt.Object() != nil && !tgt.Object().Exported() && tgt.Signature.Recv() == nil {
+		// the entry point only forwards to an unexported helper function that is handed the flag's value
+		// (`sendUnlessClosed(x.isClosed, x.ch, item)`): decide the helper's body, reading its parameters as the arguments
+		f = tgt
+		up = func(v ssa.Value) ssa.Value {
+			for i, prm := range tgt.Params {
+				if core.Resolve(v) == ssa.Value(prm) && i < len(tc.Call.Args) {
+					return tc.Call.Args[i]
+				}
+			}
+			return v
+		}
+	}
 	ok, detail := false, "no test of the closed flag found"
 	for _, b := range f.Blocks {
 		iff, isIf := b.Instrs[len(b.Instrs)-1].(*ssa.If)
@@ -473,7 +580,7 @@ func c15closedResult(p *core.Prog, f *ssa.Function, flag, sentinel string, depth
 		n := core.Normalize(core.Cond{V: iff.Cond, True: true})
 		var viaHelper ssa.Value
 		viaPredicate := false
-		if !flagRead(p, n.V, base, flag, 0) {
+		if !flagRead(p, up(n.V), base, flag, 0) {
 			// a predicate helper of the receiver whose outcome implies the flag (`if !q.prepareTake() { return …closed }`)
 			if condFlag(p, core.Cond{V: iff.Cond, True: true}, base, flag, true, 0) {
 				n, viaPredicate = core.Cond{V: iff.Cond, True: true}, true
@@ -481,7 +588,7 @@ func c15closedResult(p *core.Prog, f *ssa.Function, flag, sentinel string, depth
 				n, viaPredicate = core.Cond{V: iff.Cond, True: false}, true
 			}
 		}
-		if !viaPredicate && !flagRead(p, n.V, base, flag, 0) {
+		if !viaPredicate && !flagRead(p, up(n.V), base, flag, 0) {
 			// `if err := q.prologue(); err != nil { return ..., err }`
 			cmp, isCmp := core.AsCmp(n)
 			if !isCmp || depth > 1 || sentinel == "" || sentinel == "0" || !core.IsNilConst(cmp.Y) || (cmp.Op != token.NEQ && cmp.Op != token.EQL) {
